@@ -78,6 +78,25 @@ JudgeFile(s, F, mach) ==
           <<"P:C16:point", (shape /\ Len(rows) = Len(expT)) => \A k \in 1..Len(rows) : RowPoint(rows[k], L) = expT[k][1]>>,
           <<"P:C16:stamp-sorted", shape => StampsSorted(rows, L, FALSE)>>,
           <<posname, (shape /\ Len(rows) = Len(expT)) => \A k \in 1..Len(rows) : RowPos(rows[k], L) = expT[k][2]>> >>)
+     ELSE IF F.type = "intersect_1" /\ Len(part) = 3 /\ ~isOut /\ s.style = "tf" THEN
+        \* three operands: Fiber.intersection(a, b, c) is (a & b) & c - the OUTER two-finger merge takes labels 0 and 1, so intersect_1 holds the accesses to
+        \* the LAST operand, merged against the coordinates common to the first two
+        LET touched3(pt) == LET asg == AsgFun(order, pt)
+                                fa == FactorFiber(s, part[1], asg)  fb == FactorFiber(s, part[2], asg)  fc == FactorFiber(s, part[3], asg)
+                                PA == CoordsOf(Present(fa.e, 0))   PB == CoordsOf(Present(fb.e, 0))   PC == CoordsOf(Present(fc.e, 0))
+                                PAB == SelectSeq(PA, LAMBDA c : \E k \in 1..Len(PB) : PB[k] = c)
+                                r  == TwoFinger("and", PAB, PC)
+                                n  == Min(r.ib, Len(PC))
+                            IN [k \in 1..n |-> <<Append(pt, PC[k]), Pos(fc.e, PC[k])>>]
+            RECURSIVE Cat3(_)
+            Cat3(ss) == IF ss = <<>> THEN <<>> ELSE Head(ss) \o Cat3(Tail(ss))
+            expT == Cat3([k \in 1..Len(encl) |-> touched3(encl[k])])
+        IN Fails(<<
+          <<"P:C16:header", F.header = Header(order, L)>>,
+          <<"P:C16:one-row-per-access", shape /\ Len(rows) = Len(expT)>>,
+          <<"P:C16:point", (shape /\ Len(rows) = Len(expT)) => \A k \in 1..Len(rows) : RowPoint(rows[k], L) = expT[k][1]>>,
+          <<"P:C16:stamp-sorted", shape => StampsSorted(rows, L, FALSE)>>,
+          <<posname, (shape /\ Len(rows) = Len(expT)) => \A k \in 1..Len(rows) : RowPos(rows[k], L) = expT[k][2]>> >>)
      ELSE IF F.type = "populate_1" /\ isOut /\ Len(part) = 1 THEN
         \* source side of a populate driven by one operand fiber: one row per presented source element, addressed by its position in the source fiber
         LET RECURSIVE Cat2(_)
